@@ -50,3 +50,47 @@ Theorem C02_conformance : forall d order gcds chunks bytes,
   map (fun c => chunk_meta c (Nlen (enc_body c) / 8)) (sf_chunks a) =
   map (fun m => mkMeta (m_n m) (m_body m) (m_moments m) (norm_table f (pdt f d) (m_table m))) (chunk_metas d f chunks).
 Proof. exact conformance. Qed.
+
+(* ---- word level: the 64-bit-word packing of BitWriter (Model/Words.v: a literal transcription of
+   write_one / write_diff (3 cases) / write_aligned_bytes / finish_byte / write_varint /
+   overwrite_usize / drain_bytes) produces exactly the bit strings the format model uses ---- *)
+From QCo.Model Require Import Words.
+From QCo.Lemmas Require Import WordsL.
+
+Theorem C02_word_write_one : forall w b, wr_ok w ->
+  wr_ok (wr_write_one w b) /\ wr_bits (wr_write_one w b) = wr_bits w ++ [b].
+Proof. exact wr_write_one_spec. Qed.
+
+Theorem C02_word_write_diff : forall w x n, wr_ok w ->
+  wr_ok (wr_write_diff w x n) /\ wr_bits (wr_write_diff w x n) = wr_bits w ++ put n x.
+Proof. exact wr_write_diff_spec. Qed.
+
+Theorem C02_word_write_varint : forall w x j, wr_ok w -> x <= Consts.MAX_ENTRIES ->
+  exists w', wr_write_varint w x j = Ok w' /\ wr_ok w' /\ wr_bits w' = wr_bits w ++ write_varint x j.
+Proof. exact wr_write_varint_spec. Qed.
+
+Theorem C02_word_finish_byte : forall w, wr_ok w ->
+  wr_ok (wr_finish_byte w) /\ wr_bits (wr_finish_byte w) = pad8 (wr_bits w) /\ w_j (wr_finish_byte w) mod 8 = 0.
+Proof. exact wr_finish_byte_spec. Qed.
+
+Theorem C02_word_write_aligned_bytes : forall bytes w,
+  wr_ok w -> w_j w mod 8 = 0 -> Forall (fun b => b < 256) bytes ->
+  exists w', wr_write_aligned_bytes w bytes = Ok w' /\ wr_ok w' /\
+             wr_bits w' = wr_bits w ++ bytes_to_bits bytes /\ w_j w' mod 8 = 0.
+Proof. exact wr_write_aligned_bytes_spec. Qed.
+
+(* back-patching the body size over its zero placeholder, also when the field straddles two words *)
+Theorem C02_word_overwrite_placeholder : forall w P Q x n, wr_ok w ->
+  wr_bits w = P ++ put n 0 ++ Q ->
+  wr_ok (wr_overwrite w (Nlen P) x n) /\
+  wr_bits (wr_overwrite w (Nlen P) x n) = P ++ put n x ++ Q.
+Proof. exact wr_overwrite_placeholder. Qed.
+
+Theorem C02_word_drain_bytes : forall w, wr_ok w -> wr_bit_size w mod 8 = 0 ->
+  wr_drain_bytes w = bits_to_bytes (wr_bits w) /\
+  bytes_to_bits (wr_drain_bytes w) = wr_bits w /\
+  Nlen (wr_drain_bytes w) = wr_byte_size w.
+Proof. exact wr_drain_bytes_spec. Qed.
+
+Example C02_word_default_ok : wr_ok wr_default /\ wr_bits wr_default = [].
+Proof. exact wr_default_ok. Qed.
